@@ -56,6 +56,9 @@ pub assume_specification<T>[ Option::<T>::as_deref ](o: &Option<T>) -> (r: Optio
   where T: core::ops::Deref
   ensures r is Some <==> o is Some,
     o is Some ==> call_ensures(<T as core::ops::Deref>::deref, (&o->Some_0,), r->Some_0);
+/// ASSUMED std spec: bool::then_some
+pub assume_specification<T>[ bool::then_some ](b: bool, t: T) -> (r: Option<T>)
+  ensures r == (if b { Some(t) } else { None::<T> });
 
 
 // ------------------------------------------------------------------------------------------------
